@@ -817,6 +817,9 @@ func (x *c08Run) finish() {
 	}
 	st := fmt.Sprintf("%s/%s/%d/%v/%d", x.site, plan.Mode, len(x.crashes), x.restarted, int(x.restartStable)-int(x.completedH))
 	c.State(hashString(st))
+	if len(x.crashes) > 0 && x.crashes[0].Phase == "init" && plan.Mode == "enum" && c.RunIndex >= 4 {
+		return // keep the few sample slots of the evidence file for crashes inside the workload proper
+	}
 	c.Sample = map[string]interface{}{
 		"mode": plan.Mode, "workload": plan.Workload, "crash_point_k": plan.K, "variant": rkNames[plan.Rank%rkCount],
 		"crash_points_in_workload": x.twinEnumN, "io_events_in_workload_raw": x.twinRawN, "points_x_variants_of_workload": plan.PointsOfWorkload,
